@@ -66,3 +66,20 @@ def fibonacci_directions(n):
     phi = np.arccos(1 - 2 * i / n)
     th = np.pi * (1 + 5 ** 0.5) * i
     return np.stack([np.cos(th) * np.sin(phi), np.sin(th) * np.sin(phi), np.cos(phi)], axis=1)
+
+
+def special_quaternions():
+    """structured corner cases: rotations by tiny angles, by angles next to pi and 2*pi, w ~ 0 with both signs, and the
+    negated representatives -q of ordinary rotations (same rotation, other sheet of the double cover)"""
+    out = []
+    axes = [(1, 0, 0), (0, 1, 0), (0, 0, 1), (1, 1, 1), (0.3, -0.5, 0.8)]
+    degs = [0.01, 0.1, 0.4, 0.6, 1.0, 179.5, 180.0, 180.5, 359.6, 359.99, 90.0, 120.0]
+    for ax in axes:
+        a = np.array(ax, dtype=float) / np.linalg.norm(ax)
+        for d in degs:
+            h = np.deg2rad(d) / 2
+            out.append(np.concatenate([np.sin(h) * a, [np.cos(h)]]))
+    out = np.array(out)
+    neg = -out[::5]
+    unnorm = 3.0 * out[3::7]           # Rotation.from_quat normalises its input
+    return np.concatenate([out, neg, unnorm])
